@@ -386,6 +386,19 @@ impl Default for TrackedZst {
     }
 }
 
+impl serde::Serialize for TrackedZst {
+    fn serialize<S: serde::Serializer>(&self, s: S) -> Result<S::Ok, S::Error> {
+        s.serialize_u32(0)
+    }
+}
+
+impl<'de> serde::Deserialize<'de> for TrackedZst {
+    fn deserialize<D: serde::Deserializer<'de>>(d: D) -> Result<Self, D::Error> {
+        let _ = u32::deserialize(d)?;
+        Ok(TrackedZst::new())
+    }
+}
+
 impl PartialEq for TrackedZst {
     fn eq(&self, _: &Self) -> bool {
         true
@@ -577,5 +590,109 @@ impl Elem for ZeroLenArr {
 impl Peek for ZeroLenArr {
     fn peek(&self) -> u32 {
         0
+    }
+}
+
+/// 72-byte element: larger than a cache line, size not a power of two
+pub type Big72 = [u64; 9];
+impl Elem for Big72 {
+    const KIND: &'static str = "[u64;9]";
+    const NEEDS_DROP: bool = false;
+    fn mk(v: u32) -> Self {
+        let x = v as u64;
+        [x, !x, x ^ 1, x ^ 2, x ^ 3, x ^ 4, x ^ 5, x ^ 6, x.wrapping_mul(0x9E37_79B9_7F4A_7C15)]
+    }
+    fn get(&self) -> u32 {
+        let x = self[0];
+        if self[1] != !x || self[4] != x ^ 3 || self[8] != x.wrapping_mul(0x9E37_79B9_7F4A_7C15) {
+            violation(format!("[u64;9] element torn: {:?}", self));
+        }
+        x as u32
+    }
+}
+impl Peek for Big72 {
+    fn peek(&self) -> u32 {
+        self.get()
+    }
+}
+
+/// over-aligned element (size and alignment 32)
+#[derive(Clone, Copy, Default, PartialEq, Debug)]
+#[repr(align(32))]
+pub struct Al32(pub u32, pub u32);
+impl Elem for Al32 {
+    const KIND: &'static str = "align(32)";
+    const NEEDS_DROP: bool = false;
+    fn mk(v: u32) -> Self {
+        Al32(v, !v)
+    }
+    fn get(&self) -> u32 {
+        if self.1 != !self.0 {
+            violation(format!("align(32) element torn: {:?}", self));
+        }
+        if (self as *const Self as usize) % 32 != 0 {
+            violation(format!("align(32) element at misaligned address {:p}", self));
+        }
+        self.0
+    }
+}
+impl Peek for Al32 {
+    fn peek(&self) -> u32 {
+        self.get()
+    }
+}
+
+/// 96-byte drop-tracked element (a `Tracked` plus padding): larger than a cache line
+pub struct TrackedBig {
+    t: Tracked,
+    pad: [u64; 9],
+}
+impl TrackedBig {
+    pub fn new(v: u32) -> TrackedBig {
+        TrackedBig { t: Tracked::new(v), pad: [v as u64 ^ 0x5555; 9] }
+    }
+}
+impl Elem for TrackedBig {
+    const KIND: &'static str = "tracked_96_bytes";
+    const NEEDS_DROP: bool = true;
+    fn mk(v: u32) -> Self {
+        TrackedBig::new(v)
+    }
+    fn get(&self) -> u32 {
+        let v = self.t.observe();
+        if self.pad[0] != v as u64 ^ 0x5555 || self.pad[8] != v as u64 ^ 0x5555 {
+            violation(format!("96-byte tracked element torn (value {v})"));
+        }
+        v
+    }
+    fn ident(&self) -> Option<u32> {
+        Some(self.t.id_unchecked())
+    }
+}
+impl Peek for TrackedBig {
+    fn peek(&self) -> u32 {
+        self.get()
+    }
+}
+impl Clone for TrackedBig {
+    fn clone(&self) -> Self {
+        let t = self.t.clone();
+        let v = t.observe();
+        TrackedBig { t, pad: [v as u64 ^ 0x5555; 9] }
+    }
+}
+impl Default for TrackedBig {
+    fn default() -> Self {
+        TrackedBig { t: Tracked::default(), pad: [0x5555; 9] }
+    }
+}
+impl PartialEq for TrackedBig {
+    fn eq(&self, o: &Self) -> bool {
+        self.get() == o.get()
+    }
+}
+impl std::fmt::Debug for TrackedBig {
+    fn fmt(&self, f: &mut std::fmt::Formatter<'_>) -> std::fmt::Result {
+        write!(f, "{}", self.get())
     }
 }
